@@ -38,9 +38,11 @@ TABLE_FLOOR = {'#1 evictee vanished': 2, '#1 consumed source vanished': 2, '#2 m
                '#10 atime re-touch': 2, '#11 per-temp-file cleanup': 2}
 
 
-def r05_t(ctx):
+def r05_t(ctx, recs=None, rule='R05.t'):
     out = []
-    recs = sites.analyse(ctx, sites.lower_entries(ctx) + sites.stack_level_entries(ctx))
+    e2e = recs is not None
+    if recs is None:
+        recs = sites.analyse(ctx, sites.lower_entries(ctx) + sites.stack_level_entries(ctx))
     count = {}
     for (label, er, sr, kind) in TABLE:
         for rec in recs:
@@ -62,11 +64,13 @@ def r05_t(ctx):
                 detail = 'errors of this best-effort step never reach the caller' if ok else \
                     'an error of the best-effort step %s (%s) is now returned to the caller' % (rec['site'], rec['spans'][0])
                 path = path_brief(q.witness(rec['surfaces'][0][1]) or [])[-12:] if not ok else []
-            out.append(inst('R05.t', '%s|%s|%s' % (label, rec['entry'], rec['site']), ok, detail, path=path))
+            out.append(inst(rule, '%s|%s|%s' % (label, rec['entry'], rec['site']), ok, detail, path=path))
     for label, fl in TABLE_FLOOR.items():
-        if count.get(label, 0) < fl:
+        if not e2e and count.get(label, 0) < fl:
             out.append(inst('R05.t', '%s|site present' % label, False,
                             'race-exposed site "%s" matched %d call sites, fewer than the %d confirmed by reading' % (label, count.get(label, 0), fl)))
+    if e2e:
+        return out
     # #12: re-read after ensure's put
     wt = ctx.role('write_trait')
     ins = ctx.insert_methods()
@@ -196,3 +200,16 @@ def r05_d(ctx):
 def run(ctx):
     from runner import collect
     return collect(ctx, r05_t, r05_m, r05_9, r05_c, r05_d)
+
+
+THOROUGH_FLOORS = {'E05.t': 60}
+
+
+def e05_t(ctx):
+    """the same site table, with the stacked entry points fully inlined (per write-side implementor and checker)"""
+    return r05_t(ctx, recs=sites.analyse(ctx, sites.e2e_entries(ctx)), rule='E05.t')
+
+
+def run_thorough(ctx):
+    from runner import collect
+    return collect(ctx, e05_t)
